@@ -3,7 +3,7 @@
    Model: Model/C18FixedWidth.v, Model/C18Kernel.v (mirrors the code after the repairs of F16/F17).
    Scalars are signed representatives in Z; every theorem holds for ALL integers, in particular for all
    values of the operand widths; wrap-around is `wrap w`, sign extension keeps the representative. *)
-From Snax Require Import Base.Prelude Model.C18FixedWidth Model.C18Kernel Proofs.C18KernelProofs.
+From Snax Require Import Base.Prelude Model.C18FixedWidth Model.C18Kernel Model.C18Wiring Proofs.C18KernelProofs Proofs.C18WiringProofs.
 
 (* expanding a kernel op (convert-kernel-to-linalg = equivalent_region) computes the kernel's formula *)
 Theorem C18_expand_sound : forall k tys args,
@@ -103,3 +103,50 @@ Example C18_rescale_safe_nonvacuous :
   expand_rescale (mkR 3 (-5) 1140768826 38 127 (-128) false) 70000 <> -5.
 Proof. split; [reflexivity|vm_compute; discriminate]. Qed.
 Print Assumptions C18_rescale_safe_nonvacuous.
+
+(* ---- added by the audit -------------------------------------------------------------------------------- *)
+(* Expansion in context (LowerLinalgBody after the repair of F-C18-2): a kernel op applied to ANY list of block
+   arguments (permuted, duplicated) in a body that yields ANY mix of the kernel result and block arguments expands
+   to a body computing the same function, for all integers. *)
+Theorem C18_expand_wired_sound : forall kb args,
+  well_typed (kk kb) (ktys kb) = true ->
+  eval_body (expand_kbody kb) args = eval_kbody kb args.
+Proof. exact expand_wired_sound. Qed.
+Print Assumptions C18_expand_wired_sound.
+
+(* documentation of F-C18-2: the positional expansion (the equivalent region as it is) changed the function of
+   `kernel.mul %x0, %x0` to x0 * x1 *)
+Theorem C18_expand_positional_refuted :
+  exists kb args,
+    well_typed (kk kb) (ktys kb) = true /\ canonical kb = false /\
+    eval_body (expand_kbody_positional kb) args <> eval_kbody kb args /\
+    eval_body (expand_kbody kb) args = eval_kbody kb args.
+Proof. exact expand_positional_refuted. Qed.
+Print Assumptions C18_expand_positional_refuted.
+
+(* LowerRescale and the result type: fine for i8, ill typed for every other result width (known finding F-C18-3,
+   class rescale_result_not_i8), and then also a different function than the golden model inside F18's safe class *)
+Theorem C18_rescale_result_i8_ok : forall p,
+  rescale_region_for 8 p = rescale_region p /\ yield_typed (rescale_region_for 8 p) = true.
+Proof. exact rescale_result_i8_ok. Qed.
+Print Assumptions C18_rescale_result_i8_ok.
+
+Theorem C18_rescale_result_not_i8_ill_typed : forall wout p,
+  rescale_result_not_i8 wout = true -> yield_typed (rescale_region_for wout p) = false.
+Proof. exact rescale_result_not_i8_ill_typed. Qed.
+Print Assumptions C18_rescale_result_not_i8_ill_typed.
+
+Theorem C18_rescale_result_not_i8_refuted :
+  exists wout p x,
+    rescale_result_not_i8 wout = true /\ double_round p = false /\
+    yield_typed (rescale_region_for wout p) = false /\
+    eval_body (rescale_region_for wout p) [x; 0] <> [golden_rescale p x].
+Proof. exact rescale_result_not_i8_refuted. Qed.
+Print Assumptions C18_rescale_result_not_i8_refuted.
+
+Example C18_expand_wired_nonvacuous :
+  let kb := mkKBody [8; 8; 32; 32; 32] KQMacK 32 [1%nat; 0%nat; 3%nat; 3%nat] [None; Some 4%nat] in
+  well_typed (kk kb) (ktys kb) = true /\ canonical kb = false /\
+  eval_body (expand_kbody kb) [5; -7; 100; 2; 1000] = [1000 + (-7 - 2) * (5 - 2); 1000].
+Proof. split; [reflexivity|]. split; reflexivity. Qed.
+Print Assumptions C18_expand_wired_nonvacuous.
